@@ -159,7 +159,12 @@ pub fn explore(def: &CheckDef, tier: Tier, base_seed: u64, known: &[String]) -> 
         Tier::Quick => def.quick_s,
         Tier::Thorough => def.thorough_s,
     }));
-    let max_runs: u64 = std::env::var("MEMSIM_MAX_RUNS").ok().and_then(|s| s.parse().ok()).unwrap_or(u64::MAX);
+    // Quick tier: a fixed number of seeds starting at VERIF_SEED, so that the explored set does not
+    // depend on machine load (the wall-clock budget, three times the nominal one, is only a
+    // backstop and can only shorten the set). Thorough tier: as many seeds as fit in the budget.
+    let env_budget = std::env::var("MEMSIM_BUDGET_S").is_ok();
+    let max_runs: u64 = std::env::var("MEMSIM_MAX_RUNS").ok().and_then(|s| s.parse().ok()).unwrap_or(if tier == Tier::Quick && !env_budget { crate::checks::quick_runs(def.id) } else { u64::MAX });
+    let budget = if tier == Tier::Quick && !env_budget { budget * 3 } else { budget };
     let timeout = Duration::from_secs(match tier {
         Tier::Quick => 150,
         Tier::Thorough => 400,
